@@ -175,9 +175,10 @@ fn list_strategy(_: &Ctx) -> BoxedStrategy<ListCase> {
     let wire = |max: usize| gen::from_alphabet("abcdefghijklmnopqrstuvwxyzABCDEFGHIJKLMNOPQRSTUVWXYZ0123456789:/._-?=&% ", 0, max);
     let hash = prop_oneof![4 => gen::from_alphabet("0123456789abcdef", 40, 40), 1 => gen::from_alphabet("0123456789abcdef", 0, 8)];
     let size = prop_oneof![3 => 0i64..100_000_000_000, 1 => 0i64..=i64::MAX, 1 => prop::sample::select(vec![0i64, 1, i64::MAX, 1 << 32, (1 << 53) + 1])];
-    let entry = (wire(60), prop_oneof![3 => Just("2023.09.15.0000.0000".to_string()), 1 => wire(24)], size.clone(), size.clone(), size, vec(hash, 1..=6), any::<i32>(), any::<i32>())
+    // one URL in sixty is long (around 4 KiB / 8 KiB / 64 KiB); one hash list in forty has 60..200 hashes
+    let entry = (prop_oneof![60 => wire(60), 1 => gen::long_ascii()], prop_oneof![3 => Just("2023.09.15.0000.0000".to_string()), 1 => wire(24)], size.clone(), size.clone(), size, prop_oneof![40 => vec(hash.clone(), 1..=6), 1 => vec(hash, 60..=200)], any::<i32>(), any::<i32>())
         .prop_map(|(url, version, hash_block_size, length, size_on_disk, hashes, unknown_a, unknown_b)| EntryM { url, version, hash_block_size, length, size_on_disk, hashes, unknown_a, unknown_b });
-    (any::<bool>(), gen::from_alphabet("0123456789ABCDEF_", 0, 40), wire(60), vec(entry, 0..=8))
+    (any::<bool>(), gen::from_alphabet("0123456789ABCDEF_", 0, 40), wire(60), prop_oneof![60 => vec(entry.clone(), 0..=8), 1 => vec(entry, 40..=120)])
         .prop_map(|(game, id, content_location, mut entries)| {
             // sum of lengths stays below 2^63 (construction: later entries are reduced)
             let mut total: i128 = 0;
